@@ -104,6 +104,27 @@ def run(ctx, out):
             out.drift.append("actor semantics cross-check failed: %s" % [(v.signature.get("system"), v.clause) for v in sub.violations])
     except Exception as ex:  # pylint: disable=broad-except
         out.extra["actor_semantics_crosscheck"] = "not run: %s" % ex
+    real_race_leg(ctx, out)
+
+
+def real_race_leg(ctx, out):
+    """Trusted base, second part: real `esrally race` processes under the real Thespian actor system, recorded through the
+    ESRALLY_VERIF_TRACE hooks and validated by TLC against specs/RealRace (see harness/extras/realrace.py). Informational."""
+    try:
+        from ..core import Outcome
+        from ..extras import realrace
+
+        sub = Outcome("X-realrace")
+        realrace.run(ctx, sub)
+        notes = [n for n in getattr(sub, "notes", []) if "race " in n or "skipped" in n]
+        if sub.violations or sub.drift:
+            out.extra["real_race_crosscheck"] = "REJECTED: %s %s" % ([v.clause for v in sub.violations][:5], sub.drift[:2])
+            out.drift.append("real-race leg: %s %s" % ([(v.clause, v.detail[:120]) for v in sub.violations][:3], sub.drift[:2]))
+        else:
+            out.extra["real_race_crosscheck"] = "ok: %d real races accepted by TLC against RealRace.tla (%s)" % (sub.traces_validated, "; ".join(notes)[:600])
+        out.states += sub.states
+    except Exception as ex:  # pylint: disable=broad-except
+        out.extra["real_race_crosscheck"] = "not run: %s" % ex
 
 
 def replay(ctx, case):
